@@ -53,6 +53,7 @@ namespace vh {
 
     void probe(char const* name, uint64_t n)
     {
+        AtomicSection atomic;
         for (auto& p : g_probes)
             if (p.first == name)
             {
@@ -113,13 +114,14 @@ namespace vh {
         jesc(o, msg);
         o += sfmt(",\"steps\":%llu,\"switches\":%llu,\"preempt\":%llu,\"forced\":%llu,\"vtime\":%llu,"
                  "\"hash\":\"%016llx\",\"threads\":%llu,\"spin_forced\":%llu,\"time_jumps\":%llu,"
-                 "\"focus_preempt\":%llu,\"quiesce_step\":%llu,\"auto_quiesced\":%llu",
+                 "\"focus_preempt\":%llu,\"quiesce_step\":%llu,\"auto_quiesced\":%llu,\"mem_points\":%llu",
             (unsigned long long) st.steps, (unsigned long long) st.switches,
             (unsigned long long) st.preemptions, (unsigned long long) st.forced_switches,
             (unsigned long long) st.vtime_ns, (unsigned long long) st.hash,
             (unsigned long long) st.threads_created, (unsigned long long) st.spin_forced,
             (unsigned long long) st.time_jumps, (unsigned long long) st.focus_preemptions,
-            (unsigned long long) st.quiesce_start_step, (unsigned long long) st.auto_quiesced);
+            (unsigned long long) st.quiesce_start_step, (unsigned long long) st.auto_quiesced,
+            (unsigned long long) st.mem_points);
         o += ",\"faults\":{";
         for (int i = 1; i < SIM_D_NKINDS; i++)
             o += sfmt("%s\"%s\":%llu", i > 1 ? "," : "", dk_names[i],
@@ -191,6 +193,7 @@ namespace vh {
 
     static bool g_reporting = false;
     static void gdb_dump();
+    static void dump_trace_file();
     extern bool g_gdb_on_fail;
 
     [[noreturn]] void violation(char const* cls, char const* f, ...)
@@ -203,6 +206,7 @@ namespace vh {
         if (g_reporting) _exit(4);
         g_reporting = true;
         if (g_gdb_on_fail) gdb_dump();
+        dump_trace_file();
         emit_result("violation", cls, buf);
         _exit(3);
     }
@@ -216,6 +220,40 @@ namespace vh {
     }
 
     bool g_gdb_on_fail = false;
+    char g_trace_path[512] = "";
+    static void dump_trace_file()
+    {
+        if (!g_trace_path[0]) return;
+        int tfd = open(g_trace_path, O_WRONLY | O_CREAT | O_TRUNC, 0644);
+        if (tfd < 0) return;
+        // module bases first (ASLR is off, but keep the file self-contained)
+        int mfd = open("/proc/self/maps", O_RDONLY);
+        if (mfd >= 0)
+        {
+            static char buf[1 << 16];
+            ssize_t n = read(mfd, buf, sizeof(buf) - 1);
+            close(mfd);
+            if (n > 0)
+            {
+                buf[n] = 0;
+                char* line = buf;
+                while (line && *line)
+                {
+                    char* nl = strchr(line, '\n');
+                    if (nl) *nl = 0;
+                    if (strstr(line, "r-xp") && (strstr(line, "libpika.so") || strstr(line, "/runner")))
+                    {
+                        if (write(tfd, "MAP ", 4) < 0) {}
+                        if (write(tfd, line, strlen(line)) < 0) {}
+                        if (write(tfd, "\n", 1) < 0) {}
+                    }
+                    line = nl ? nl + 1 : nullptr;
+                }
+            }
+        }
+        sim_dump_trace(tfd, 400);
+        close(tfd);
+    }
     static void gdb_dump()
     {
         char cmd[600];
@@ -232,16 +270,8 @@ namespace vh {
     {
         if (g_reporting) _exit(4);
         g_reporting = true;
-        if (g_gdb_on_fail)
-        {
-            int tfd = open("/verif/build/tmp/trace.txt", O_WRONLY | O_CREAT | O_TRUNC, 0644);
-            if (tfd >= 0)
-            {
-                sim_dump_trace(tfd, 16384);
-                close(tfd);
-            }
-            gdb_dump();
-        }
+        if (g_gdb_on_fail) gdb_dump();
+        dump_trace_file();
         std::string m = msg;
         char buf[8192];
         size_t n = sim_describe(buf, sizeof(buf));
